@@ -99,3 +99,14 @@ template class FEAT::Geometry::MeshPermutation<Shape::Hypercube<3>>;
 template class FEAT::Geometry::MeshPermutation<Shape::Simplex<3>>;
 template class FEAT::Geometry::IndexSet<4>;
 template class FEAT::Geometry::VertexSet<3, double>;
+
+// topology deduction of mesh parts from their parent (MeshPart::deduct_topology -> IndexSetFiller, RedundantIndexSetBuilder);
+// the 2D/3D mesh parts are instantiated as whole classes above, the 1D ones by address (instantiation only)
+template<typename Mesh_>
+void c10_part_topology()
+{
+  auto p_deduct = &MeshPart<Mesh_>::deduct_topology;
+  (void)p_deduct;
+}
+template void c10_part_topology<ConformalMesh<Shape::Hypercube<1>, 1, double>>();
+template void c10_part_topology<ConformalMesh<Shape::Simplex<1>, 1, double>>();
